@@ -16,8 +16,8 @@ RULE = ("(molecule, acyclic single bond) pairs over corpus and Hypothesis-edited
         "Si/B/Mg/Zn, charged and explicit-H boundary atoms): the bond is cut, both ends are H-capped, fragments are "
         "written to SMILES and the boundary index is recovered through _smilesAtomOutputOrder (the pipeline's route); "
         "CompoundSet is built with src_mol = the uncut molecule and the true neighbour indices. Modes: two-fragment "
-        "merge; one-fragment completion (either fragment); fragment + pass-through 'catalyst' compound (water / alcohol "
-        "/ other). Oracle: two-fragment: non-isomeric canonical SMILES of the result == the original unless a "
+        "merge; one-fragment completion (either fragment); fragment + one or two pass-through 'catalyst' compounds (water / alcohol "
+        "/ amine / other) in a drawn order of the compound set. Oracle: two-fragment: non-isomeric canonical SMILES of the result == the original unless a "
         "restriction rule is reported, then == the two H-capped fragments; one-fragment: result == fragment bonded at "
         "the boundary atom to the compound of the reported expand rule (rebuilt independently from expand_rules.json; "
         "bond order from the reported merge rule in merge_rules.json), or the fragment unchanged if no expand rule is "
@@ -160,12 +160,21 @@ def check_case(case, spec=None):
             frags = [s1, s2]
         elif mode in ("oneA", "oneB", "catalyst"):
             s, i, o = (s1, i1, o1) if mode != "oneB" else (s2, i2, o2)
-            c1 = cs.add_compound(s, src_mol=src)
-            c1.add_boundary(i, neighbor_index=o)
             frags = [s]
             if mode == "catalyst":
+                # fragment + one or two pass-through compounds (water, alcohols, amines ...) in a drawn order
                 catalyst = case.get("catalyst", "O")
-                cs.add_compound(catalyst, src_mol=catalyst)
+                order = case.get("order") or ["frag", "cat"]
+                extras = {"cat": catalyst, "cat2": case.get("catalyst2")}
+                for slot in order:
+                    if slot == "frag":
+                        c1 = cs.add_compound(s, src_mol=src)
+                        c1.add_boundary(i, neighbor_index=o)
+                    elif extras.get(slot):
+                        cs.add_compound(extras[slot], src_mol=extras[slot])
+            else:
+                c1 = cs.add_compound(s, src_mol=src)
+                c1.add_boundary(i, neighbor_index=o)
     except Exception as e:
         res.inconclusive = "compound set construction rejected: " + type(e).__name__
         return res
@@ -207,8 +216,11 @@ def check_case(case, spec=None):
     mrg_rules = [r for r in rules if r in merge_cfg]
     # conservation clauses
     parts = list(frags)
-    if catalyst is not None and not (catalyst == "O" and "remove_water_catalyst" in rules):
-        parts.append(catalyst)
+    water_removed = "remove_water_catalyst" in rules
+    for extra in ([catalyst] if catalyst is not None else []) + ([case.get("catalyst2")] if case.get("catalyst2") and "cat2" in (case.get("order") or []) else []):
+        if extra == "O" and water_removed:
+            continue   # the reported compound rule says the spectator water was dropped
+        parts.append(extra)
     exp_heavy = Counter()
     for p in parts:
         exp_heavy.update(heavy_multiset(p))
@@ -356,7 +368,13 @@ def cut_case(draw, max_heavy=30):
     mode = draw(st.sampled_from(["two", "two", "oneA", "oneB", "catalyst"]))
     c = {"smiles": s, "bond": bond, "mode": mode}
     if mode == "catalyst":
-        c["catalyst"] = draw(st.sampled_from(["O", "CO", "CCO", "c1ccncc1", "OCCO", "CC(C)O", "[Pd]", "CN(C)C"]))
+        cats = ["O", "O", "CO", "CCO", "c1ccncc1", "OCCO", "CC(C)O", "[Pd]", "CN(C)C", "CCN"]
+        c["catalyst"] = draw(st.sampled_from(cats))
+        if draw(st.booleans()):
+            c["catalyst2"] = draw(st.sampled_from(cats))
+            c["order"] = list(draw(st.permutations(["frag", "cat", "cat2"])))
+        else:
+            c["order"] = list(draw(st.permutations(["frag", "cat"])))
     return c
 
 
